@@ -82,6 +82,11 @@ def apply_rule(logic, info, ctx, setup_name, s):
     extra = []
     if setup_name == 'consts':
         extra = [sdwnode(Predicated(Predicate(1, 0, 1), (ctx.ca,)), info['designation'], w0)]
+    if setup_name == 'consts_desc':
+        # a higher constant mentioned BEFORE a lower one (freshness must not depend on the order of mention)
+        from pytableaux.lang import Constant
+        extra = [sdwnode(Predicated(Predicate(1, 0, 1), (Constant(1, 0),)), info['designation'], w0),
+                 sdwnode(Predicated(Predicate(1, 0, 1), (ctx.ca,)), info['designation'], w0)]
     if setup_name == 'access':
         extra = [anode(0, 1)]
     for e in extra:
@@ -89,6 +94,13 @@ def apply_rule(logic, info, ctx, setup_name, s):
     b.append(node)
     env = dict(w=w0, old_consts=set(b.constants), old_worlds=set(b.worlds))
     rule = tab.rules.get(info['name'])
+    if setup_name == 'consts_desc':
+        # no trunk was built, so the projected constant limit defaults to 1: raise it for this hand-made branch
+        from pytableaux.proof.helpers import MaxConsts
+        try:
+            rule[MaxConsts][b.origin] = 8
+        except Exception:
+            pass
     applied = []
     for _ in range(4):
         target = rule.target(b)
